@@ -105,7 +105,7 @@ func cmdLiveness(args []string) int {
 		scen := ""
 		if i >= *runs { // the asynchronous prefix is a directed schedule of the attack library, cut at a random step
 			scen = scNames[(i-*runs)%len(scNames)]
-			n, ws, byz = 4, []uint64{1, 1, 1, 1}, scenarioByz(scen)
+			n, ws, byz = 4, scenarioWeights(scen), scenarioByz(scen)
 		}
 		cl := newCluster(ws, byz, 1, scen == "" && rnd.Intn(2) == 0)
 		r := &run{cl: cl, adv: newAdversary(cl), rnd: rnd, out: out, chain: map[uint64]commitRec{}, maxH: 1, stats: stats, tmpl: tmpl, label: "liveness"}
